@@ -242,6 +242,46 @@ Definition nl : N := 10.
 Definition cat3 (t : layer * layer * layer) : str :=
   match t with (u, p, e) => layer_text u ++ nl :: layer_text p ++ nl :: layer_text e end.
 
+(* ------------------------------------------------------------------ a filesystem with identity *)
+(* A layout gives every layer location its own entry.  On a real filesystem the three layer locations (and the
+   .dippy of several ancestor levels) may name the SAME file: directly, through symbolic links, hard links,
+   `..` components, `~`, a symlinked directory on the way.  load_config keeps no state between the layers: each
+   name is examined (Path.is_file -> stat, which follows links) and read on its own.  So a filesystem is
+   what stat() answers for each name - an inode (identified by device:number), nothing (ENOENT, ENOTDIR, ELOOP:
+   is_file() is False) or EACCES - and what each inode is.  Two names with the same inode ARE the same file. *)
+Inductive inode := IReg (r : readres) | IDirN | ISpecialN.
+Inductive statres := SIno (i : str) | SNone | SDenied.
+Record fsys := mkFs { fs_stat : list (str * statres); fs_inode : list (str * inode) }.
+
+Fixpoint assoc_str {T} (k : str) (l : list (str * T)) : option T :=
+  match l with
+  | [] => None
+  | (k', v) :: r => if str_eqb k' k then Some v else assoc_str k r
+  end.
+Definition stat_of (fs : fsys) (path : str) : statres :=
+  match assoc_str path (fs_stat fs) with Some s => s | None => SNone end.
+(* what a name is for load_config (links are already followed by stat) *)
+Definition entry_of (fs : fsys) (path : str) : entry :=
+  match stat_of fs path with
+  | SIno i => match assoc_str i (fs_inode fs) with
+              | Some (IReg r) => EFile r | Some IDirN => EDir | Some ISpecialN => ESpecial | None => EAbsent
+              end
+  | SNone => EAbsent
+  | SDenied => EDenied
+  end.
+Definition place_of (fs : fsys) (path : str) : place := mkPlace path (entry_of fs path).
+
+(* the three layer NAMES: USER_CONFIG, <level>/.dippy for the resolved cwd and its parents, $DIPPY_CONFIG *)
+Inductive envname := NUnset | NEmpty | NNoUser | NAt (path : str).
+Record names := mkNames { n_user : str; n_chain : list str; n_env : envname }.
+Definition env_of (fs : fsys) (e : envname) : envl :=
+  match e with NUnset => EnvUnset | NEmpty => EnvEmpty | NNoUser => EnvNoUser | NAt p => EnvAt (place_of fs p) end.
+Definition layout_of (fs : fsys) (n : names) : layout :=
+  mkLayout (place_of fs (n_user n)) (map (place_of fs) (n_chain n)) (env_of fs (n_env n)).
+Definition load_config_fs (parse : str -> config) (fs : fsys) (n : names) : res config :=
+  load_config parse (layout_of fs n).
+Definition effective_fs (fs : fsys) (n : names) : res (layer * layer * layer) := effective (layout_of fs n).
+
 (* ------------------------------------------------------------------ a line-fold parse_config *)
 (* parse_config processes text.split("\n") line by line; a line has at most one effect *)
 Inductive item :=
